@@ -77,7 +77,7 @@ import (
 )
 
 var st = stat.New("C19",
-	"one case = one pool life: workers 1..8, queue capacity 0..16 (0/1 boosted), 1..6 submitter goroutines, 0..200 jobs with drawn duration (0 / Gosched / sleep 10µs..3ms) and drawn yields in jobs and submitters, release point idle / while k gated jobs run (+e extra jobs, e<=queue capacity when k==workers) / immediately after the submitters returned. Non-trivial = jobs > workers + queue capacity (back-pressure) and >= 2 submitters that actually submit. Distinct = distinct case JSON.",
+	"one case = one pool life: workers 1..8, queue capacity 0..16 (0/1 boosted), 1..6 submitter goroutines, 0..200 jobs with drawn duration (0 / Gosched / sleep 10µs..3ms) and drawn yields in jobs and submitters, (sub-check large-queue: capacities 17..300000 incl. 65535/65536/65537 - with every worker held on a gate, workers + 1 + capacity submissions must go through without stalling, the next one must block until the gate opens, and every job runs exactly once) release point idle / while k gated jobs run (+e extra jobs, e<=queue capacity when k==workers) / immediately after the submitters returned. Non-trivial = jobs > workers + queue capacity (back-pressure) and >= 2 submitters that actually submit. Distinct = distinct case JSON.",
 	"jobs are submitted like the real callers do (pool.JobQueue <- fn); Release is called only after all submitters returned (submit concurrent with/after Release is outside the property)",
 	"jobs still queued when Release is called are not required to run; they must run at most once and not start after Release returned",
 	"Release on a pool that still has running/queued jobs is expected to return once the running jobs finished (second sentence of the statement; tcphandler.Shutdown relies on it)",
@@ -850,6 +850,7 @@ func selfTest(t *testing.T) {
 
 func TestC19(t *testing.T) {
 	defer st.Emit()
+	defer largeQueues(t)
 	flag.Set("rapid.shrinktime", "8s")
 	if stat.ReplayPath() == "" {
 		selfTest(t)
